@@ -38,6 +38,15 @@ impl Session {
   /// rules: YAML documents; base: workspace root (absolute); folder_delay_ms: how long the client waits before
   /// answering the server's workspace/workspaceFolders request
   pub fn start(rules_yaml: &str, base: &str, folder_delay_ms: u64, threads: usize) -> Session {
+    // the lsp_handler_done hook events of this process go to one file; sessions are told apart by their URIs,
+    // so every session gets its own workspace directory name
+    static NEXT: AtomicU64 = AtomicU64::new(0);
+    if std::env::var("AST_GREP_VERIF_TRACE").is_err() {
+      let f = hook_file();
+      let _ = std::fs::remove_file(&f);
+      std::env::set_var("AST_GREP_VERIF_TRACE", &f);
+    }
+    let base = &format!("{base}-s{}", NEXT.fetch_add(1, Ordering::SeqCst));
     let rt = tokio::runtime::Builder::new_multi_thread().worker_threads(threads.max(1)).enable_all().build().unwrap();
     let globals = GlobalRules::default();
     let rules = from_yaml_string::<SupportLang>(rules_yaml, &globals).map_err(|e| format!("{e:?}"));
@@ -194,6 +203,36 @@ impl Session {
     }
   }
 
+  /// number of document notification handlers that have run to their end for this document (hook events)
+  pub fn handlers_done(&self, rel: &str) -> usize {
+    let uri = self.uri(rel);
+    let Ok(f) = std::env::var("AST_GREP_VERIF_TRACE") else { return 0 };
+    let Ok(text) = std::fs::read_to_string(&f) else { return 0 };
+    text
+      .lines()
+      .filter(|l| l.contains("\"lsp_handler_done\""))
+      .filter_map(|l| serde_json::from_str::<Value>(l).ok())
+      .filter(|v| {
+        // the server reports the URI as it parsed it
+        v["uri"].as_str().map(|u| u == uri || tower_lsp::lsp_types::Url::parse(&uri).map(|p| p.as_str() == u).unwrap_or(false)).unwrap_or(false)
+      })
+      .count()
+  }
+
+  /// wait until `n` handlers of the document have finished (deterministic, from the hook), then flush the
+  /// server's outgoing messages with a request/response round trip; false on timeout
+  pub fn wait_handlers(&self, rel: &str, n: usize, timeout_ms: u64) -> bool {
+    let t0 = Instant::now();
+    while self.handlers_done(rel) < n {
+      if t0.elapsed() > Duration::from_millis(timeout_ms) {
+        return false;
+      }
+      std::thread::sleep(Duration::from_millis(2));
+    }
+    let _ = self.request("workspace/executeCommand", json!({"command": "verif-barrier", "arguments": []}), 3000);
+    self.wait_quiescent(15, 2000)
+  }
+
   pub fn uri(&self, rel: &str) -> String {
     if rel.starts_with('/') {
       return format!("file://{rel}");
@@ -227,6 +266,10 @@ impl Session {
   pub fn shutdown(self) {
     self.rt.shutdown_timeout(Duration::from_millis(200));
   }
+}
+
+pub fn hook_file() -> String {
+  format!("/var/tmp/agv-lsp-hook-{}.ndjson", std::process::id())
 }
 
 /// (line, character) in characters -> byte offset
